@@ -3,7 +3,7 @@ import RedunModel.Model.CacheHist
 open RedunModel RedunModel.CacheHist
 
 /- request (one history per line):
-     hist (V <simpleExprValid T|F> <cseSubtreeFromDb T|F>) (tbl (i<name> i<ver> <spec>)*) (steps <step>*)
+     hist (V <simpleExprValid T|F> <cseSubtreeFromDb T|F> <noCatchCache T|F>) (tbl (i<name> i<ver> <spec>)*) (steps <step>*)
      spec ::= (ret <tm>) | (raise i<cls>)
      tm   ::= arg | numarg | i<int> | (file i<p>) | (add <tm> <tm>) | (call i<name> <tm>) | (catch <tm> i<cls> i<rec>)
      step ::= (step (code (i<name> i<ver> <shallow T|F>)*) (fs (i<p> i<stamp>)*) (root i<name> <val>))
@@ -98,11 +98,11 @@ def runAll (V : Variant) (P : Prog) : St → List RunIn → List String
 
 def step (_ : Unit) (line : String) : Unit × String :=
   match Sexp.parseLine line with
-  | some [.atom "hist", .list [.atom "V", a, b], .list (.atom "tbl" :: tb), .list (.atom "steps" :: ss)] =>
-    match boolA a, boolA b, tblOf tb, stepsOf ss with
-    | some a, some b, some tbl, some steps =>
-      ((), " ; ".intercalate (runAll ⟨a, b⟩ (tableProg tbl) {} steps))
-    | _, _, _, _ => ((), "bad-value")
+  | some [.atom "hist", .list [.atom "V", a, b, c], .list (.atom "tbl" :: tb), .list (.atom "steps" :: ss)] =>
+    match boolA a, boolA b, boolA c, tblOf tb, stepsOf ss with
+    | some a, some b, some c, some tbl, some steps =>
+      ((), " ; ".intercalate (runAll ⟨a, b, c⟩ (tableProg tbl) {} steps))
+    | _, _, _, _, _ => ((), "bad-value")
   | _ => ((), "bad-op")
 
 def main : IO Unit := do driverLoop (← IO.getStdin) () step
